@@ -187,6 +187,11 @@ def handle : List String → Option String
       match cs with
       | some cs => showExcept (fun (b : Bool) => if b then "True" else "False") (Src.csep_is_header cs)
       | none => "bad-op")
+  | ["src_parse_datetime_to_zmap", ds, ts] => some (match parseList? String.toNat? ds, parseList? String.toNat? ts with
+      | some ds, some ts => showExcept (fun (r : Int × Int × Int × Int × Int × Int) =>
+          s!"{r.1}:{r.2.1}:{r.2.2.1}:{r.2.2.2.1}:{r.2.2.2.2.1}:{r.2.2.2.2.2}")
+          (Src.parse_datetime_to_zmap (ds.map Char.ofNat) (ts.map Char.ofNat))
+      | _, _ => "bad-op")
   | ["src_reader_parse_datetime", cs] => some (match parseList? String.toNat? cs with
       | some cs => showExcept showInt (Src.reader_parse_datetime (cs.map Char.ofNat)) | none => "bad-op")
   | ["src_millis_to_days", xs] => some (match parseList? parseInt? xs with
@@ -233,6 +238,12 @@ def handle : List String → Option String
           let r := Src.t_test_ndarray (fun q df => q * 2.0 + df * 0.125) ra rb n na nb alpha
           showList showFloat [r.1, r.2.1, r.2.2.1, r.2.2.2.1, r.2.2.2.2]
       | _, _, _, _, _, _ => "bad-op")
+  | ["src_w_test_ndarray", m, xs] => some (
+      match parseRat? m, parseList? parseRat? xs with
+      | some m, some xs =>
+          let r := Src.w_test_ndarray (α := Float) (fun z => 1.0 / (1.0 + z)) xs m
+          showList showFloat [r.1, r.2]
+      | _, _ => "bad-op")
   | ["src_paired_t_test", ra, rb, n, na, nb, alpha] => some (
       match parseList? parseFloat? ra, parseList? parseFloat? rb, n.toNat?, parseFloat? na, parseFloat? nb,
         parseFloat? alpha with
